@@ -131,6 +131,17 @@ CLAIMED = {
              "excluded from serialisation, so a restored object rebuilds the same curve.",
         note="Assumed (external contracts): numpy.interp / scipy interp1d / PchipInterpolator pass through their support points and "
              "Pchip / linear interpolation are shape preserving; 10**log10(y) == y. Not decided: the JSON codec (C20 not applicable)."),
+    "C13": dict(
+        text="Proof for the generic controlled transformer of a vectorised controller (real method text): DiscreteTapControl.control_step "
+             "keeps tap_min <= tap_pos <= tap_max, moves one step in the needed direction unless the limit is reached and writes that "
+             "value; DiscreteTapControl.is_converged == True implies voltage inside the band or tap at the limit in the needed "
+             "direction (or no voltage result); ContinuousTapControl.control_step writes a tap inside [tap_min, tap_max], its "
+             "is_converged implies tolerance or limit. Bounded (labelled): check_for_initial_run is the disjunction of the "
+             "controllers' flags and control_implementation, with ghost events, returns normally only when every controller "
+             "reported convergence after the last control step and no control step follows the last power flow, levels in order "
+             "(lists unrolled: <= 3 levels x <= 2 controllers, max_iter = 2).",
+        note="Assumed: read_from_net / write_to_net contracts; nothing_to_do False; well-formed band (lower <= upper). Not decided: "
+             "the power flow itself, other controller classes, hunting detection; loops over controller lists only bounded."),
 }
 
 NOT_APPLICABLE = {
